@@ -1089,6 +1089,25 @@ func (c *c06ctx) runFixture(fx *fixture, rng *vkit.Rand, st *c06Stats, pinned []
 			}
 		}
 	}
+	if fx.spec.Index == 0 {
+		// one executed paged listing, verbatim, for the evidence file
+		lc := listCase{API: "http-v2", Bucket: "a", Prefix: sp("a"), PageSize: 4}
+		var pagesSeen [][]string
+		var ct *cont
+		for len(pagesSeen) < 10 {
+			p, err := c.fetch(fx, lc, ct)
+			if err != nil {
+				break
+			}
+			pagesSeen = append(pagesSeen, rowStrings(p.Items, false))
+			if !p.Truncated || p.Next == nil {
+				break
+			}
+			ct = p.Next
+		}
+		want, _ := refList(fx.objRows, "a", "", nil, nil)
+		r.Sample(map[string]any{"api": "http-v2", "keys": fx.spec.Keys, "prefix": "a", "max_keys": 4, "pages": pagesSeen, "reference": rowStrings(want, false)})
+	}
 	// uploads: first-request marker pairs (key-marker + upload-id-marker)
 	if len(fx.upRows) > 0 {
 		for i := 0; i < 3; i++ {
@@ -1189,7 +1208,7 @@ func runC06(tier, replay string) {
 		return
 	}
 	base := r.Rand()
-	nSets := r.N(60, 1500)
+	nSets := r.N(60, 600)
 	workers := 6
 	if r.Thorough() {
 		workers = 12
@@ -1276,13 +1295,9 @@ func replayC06(r *vkit.Run, path string) {
 	}
 	lc := w.Case
 	if lc.IDMarker != nil {
-		// upload ids are assigned by the server: re-map the recorded id marker by position
-		var old, now []row
-		for _, u := range w.Want {
-			old = append(old, u)
-		}
-		_ = old
-		now = append(now, fx.upRows...)
+		// upload ids are assigned by the server: use the first upload id of the
+		// marker key in the rebuilt fixture
+		now := append([]row(nil), fx.upRows...)
 		sortRows(now)
 		for _, u := range now {
 			if u.Key == deref(lc.Marker) {
